@@ -192,46 +192,174 @@ fn report(c: &C13Case) -> CaseReport {
         }
     }
     for k in positions.into_iter() {
-        let ctl = new_ctl(FaultDomain::WriteSide);
-        {
-            let mut g = ctl.lock().unwrap();
-            g.fault_at = vec![k];
-            g.fault_kind = KINDS[(k as usize + case_hash as usize % 97) % KINDS.len()];
-            g.fault_side_effects = (k + (case_hash >> 16)) % 2 == 1;
-            g.faults_enabled = true;
-        }
-        let mut trace = vec![format!("fault at write-side call {} of {} ({:?}, side effects {})", k, n, KINDS[(k as usize + case_hash as usize % 97) % KINDS.len()], (k + (case_hash >> 16)) % 2 == 1)];
-        rep.evaluations += 1;
-        match run_write_script(c.version, c.max_buf, &c.script, &ctl, &mut trace) {
-            Ok(s) => {
-                if s.fault_in_writeback && s.flush_ok_after_writeback_fault {
-                    rep.nontrivial_items.push(case_hash ^ (k + 1).wrapping_mul(0x9E37_79B9_7F4A_7C15));
-                }
-                for pr in s.reopen_problems.iter() {
-                    let c = format!("after_flush_ok_raw_image_unreadable:{}", pr);
-                    if !rep.classes.iter().any(|x| x == &c) {
-                        rep.classes.push(c);
-                    }
-                }
-                for (k, v) in [("raw_reopen_not_judged_after_failed_namespace_call", s.reopen_skipped_after_failed_namespace_call), ("durable_content_rechecked_later", s.durable_checks), ("durable_content_unreadable_later", s.durable_unreadable)] {
-                    if v > 0 && !rep.classes.iter().any(|x| x == k) {
-                        rep.classes.push(k.into());
-                    }
-                }
-                if s.fault_in_drop && !rep.classes.iter().any(|x| x == "fault_in_drop_exempt") {
-                    rep.classes.push("fault_in_drop_exempt".into());
-                }
-            }
-            Err(mut f) => {
-                f.detail = format!("[fault at {} of {} underlying write/seek/flush calls] {}", k, n, f.detail);
-                rep.fail = Some(f);
-                rep.trace = trace;
-                return rep;
-            }
+        if let Some((f, trace)) = fault_run(c, k, n, case_hash, &mut rep) {
+            rep.fail = Some(f);
+            rep.trace = trace;
+            return rep;
         }
     }
     rep.classes.push(format!("max_buf_{:?}", c.max_buf));
     rep
+}
+
+/// One execution of the workload with underlying write-side call `k` failing.
+fn fault_run(c: &C13Case, k: u64, n: u64, case_hash: u64, rep: &mut CaseReport) -> Option<(Fail, Vec<String>)> {
+    let ctl = new_ctl(FaultDomain::WriteSide);
+    {
+        let mut g = ctl.lock().unwrap();
+        g.fault_at = vec![k];
+        g.fault_kind = KINDS[(k as usize + case_hash as usize % 97) % KINDS.len()];
+        g.fault_side_effects = (k + (case_hash >> 16)) % 2 == 1;
+        g.faults_enabled = true;
+    }
+    let mut trace = vec![format!("fault at write-side call {} of {} ({:?}, side effects {})", k, n, KINDS[(k as usize + case_hash as usize % 97) % KINDS.len()], (k + (case_hash >> 16)) % 2 == 1)];
+    rep.evaluations += 1;
+    match run_write_script(c.version, c.max_buf, &c.script, &ctl, &mut trace) {
+        Ok(s) => {
+            if s.fault_in_writeback && s.flush_ok_after_writeback_fault {
+                rep.nontrivial_items.push(case_hash ^ (k + 1).wrapping_mul(0x9E37_79B9_7F4A_7C15));
+            }
+            for pr in s.reopen_problems.iter() {
+                let c = format!("after_flush_ok_raw_image_unreadable:{}", pr);
+                if !rep.classes.iter().any(|x| x == &c) {
+                    rep.classes.push(c);
+                }
+            }
+            for (k, v) in [("raw_reopen_not_judged_after_failed_namespace_call", s.reopen_skipped_after_failed_namespace_call), ("durable_content_rechecked_later", s.durable_checks), ("durable_content_unreadable_later", s.durable_unreadable)] {
+                if v > 0 && !rep.classes.iter().any(|x| x == k) {
+                    rep.classes.push(k.into());
+                }
+            }
+            if s.fault_in_drop && !rep.classes.iter().any(|x| x == "fault_in_drop_exempt") {
+                rep.classes.push("fault_in_drop_exempt".into());
+            }
+            None
+        }
+        Err(mut f) => {
+            f.detail = format!("[fault at {} of {} underlying write/seek/flush calls] {}", k, n, f.detail);
+            Some((f, trace))
+        }
+    }
+}
+
+/// Scenario step: a version-3 file is grown to just below the capacity of 109 FAT sectors
+/// (the last one the header's DIFAT array can name); the following writes append the 110th
+/// FAT sector together with the first DIFAT sector, and - 128 sectors later each - the 111th
+/// and 112th FAT sector. Every underlying write-side call of those writes fails in turn (the
+/// growth to 7 MB itself is not enumerated); after the retry the history continues across
+/// the next FAT-sector boundaries, so state left behind by the failed call meets the next
+/// table growth. Same oracle as the generated workloads.
+fn difat_boundary_faults(ctx: &Ctx, ev: &mut Value) -> Option<Violation> {
+    let chunk = |seed: u8| WOp::WriteAll { slot: 0, data: DataSpec { len: 60_000, seed } };
+    let script = vec![
+        WOp::CreateStream { slot: 0, name: 0 },
+        WOp::WriteAll { slot: 0, data: DataSpec { len: 3000, seed: 1 } },
+        WOp::Flush { slot: 0 },
+        WOp::SetLen { slot: 0, len: LenSpec::Abs(7_020_000) },
+        WOp::SeekEnd { slot: 0 },
+        chunk(2),
+        WOp::Flush { slot: 0 },
+        chunk(3),
+        WOp::Flush { slot: 0 },
+        chunk(4),
+        chunk(5),
+        WOp::Flush { slot: 0 },
+        WOp::Close { slot: 0 },
+        WOp::CfbFlush,
+    ];
+    let first_enumerated_op = 4;
+    let mut total = 0u64;
+    let mut positions_total = 0u64;
+    for max_buf in [Some(4096u32), None] {
+        let c = C13Case { version: 3, max_buf, script: script.clone() };
+        let what = format!("V3 file grown across the 110th-112th FAT sector (first DIFAT sector) with a write-side fault at every underlying call of the crossing writes, max_buf {:?}", max_buf);
+        let case_hash = fnv64(serde_json::to_string(&c).unwrap_or_default().as_bytes());
+        let mut rep = CaseReport { evaluations: 0, ..CaseReport::default() };
+        let ctl = new_ctl(FaultDomain::WriteSide);
+        {
+            // faults "enabled" with no position set: the backend records where a fault could fire
+            let mut g = ctl.lock().unwrap();
+            g.faults_enabled = true;
+            g.record_live = true;
+        }
+        let mut trace = Vec::new();
+        let base = match run_write_script(c.version, c.max_buf, &c.script, &ctl, &mut trace) {
+            Ok(s) => s,
+            Err(f) => return Some(Violation { key: f.key.replace("write_fault|", "no_fault|"), detail: format!("[{}] fault-free run: {}", what, f.detail), case: serde_json::json!({"scenario": what}), trace }),
+        };
+        let n = base.n_calls;
+        let (live, header_writes) = {
+            let g = ctl.lock().unwrap();
+            (g.live_seqs.clone(), g.header_write_seqs.clone())
+        };
+        let from = base.op_starts.get(first_enumerated_op).copied().unwrap_or(0);
+        let live: Vec<u64> = live.into_iter().filter(|&k| k >= from).collect();
+        let header_writes: Vec<u64> = header_writes.into_iter().filter(|&k| k >= from).collect();
+        // the library's own calls only (the harness's read-backs seek too). Quick tier: every
+        // call within 25 library calls of a header write (a table grows or moves: FAT sector
+        // count, first DIFAT sector, DIFAT sector count) and every 40th elsewhere; thorough: all
+        let mut positions: std::collections::BTreeSet<u64> = Default::default();
+        for (i, &k) in live.iter().enumerate() {
+            let near = {
+                // 25 library calls either side
+                let lo = i.saturating_sub(25);
+                let hi = (i + 25).min(live.len() - 1);
+                header_writes.iter().any(|&h| h >= live[lo] && h <= live[hi])
+            };
+            if ctx.tier == Tier::Thorough || near || i % 40 == 0 {
+                positions.insert(k);
+            }
+        }
+        if std::env::var("VERIF_DEBUG_C13").is_ok() {
+            eprintln!("base run: {} calls, {} by the library from op {}, header writes at {:?}, {} positions", n, live.len(), first_enumerated_op, header_writes, positions.len());
+        }
+        positions_total += positions.len() as u64;
+        let cap = env_u64("VERIF_C13_DIFAT_MAXPOS", u64::MAX) as usize;
+        let positions: Vec<u64> = positions.into_iter().take(cap).collect();
+        // the executions are independent of each other: spread over threads, lowest failing position wins
+        let nthreads = env_u64("VERIF_WORKERS", 16).clamp(1, 16) as usize;
+        let results: Vec<(u64, Option<(u64, Fail, Vec<String>)>)> = std::thread::scope(|sc| {
+            let hs: Vec<_> = (0..nthreads)
+                .map(|t| {
+                    let (c, positions) = (&c, &positions);
+                    sc.spawn(move || {
+                        crate::lockwatch::install();
+                        let mut rep = CaseReport { evaluations: 0, ..CaseReport::default() };
+                        let mut first = None;
+                        for (i, &k) in positions.iter().enumerate() {
+                            if i % nthreads != t {
+                                continue;
+                            }
+                            if let Some((f, trace)) = fault_run(c, k, n, case_hash, &mut rep) {
+                                first = Some((k, f, trace));
+                                break;
+                            }
+                        }
+                        (rep.evaluations, first)
+                    })
+                })
+                .collect();
+            hs.into_iter().map(|h| h.join().unwrap_or((0, None))).collect()
+        });
+        let mut worst: Option<(u64, Fail, Vec<String>)> = None;
+        for (evals, first) in results {
+            rep.evaluations += evals;
+            if let Some(x) = first {
+                if worst.as_ref().map(|w| x.0 < w.0).unwrap_or(true) {
+                    worst = Some(x);
+                }
+            }
+        }
+        if let Some((_, f, trace)) = worst {
+            return Some(Violation { key: format!("{}|difat_boundary", f.key), detail: format!("[{}] {}", what, f.detail), case: serde_json::json!({"scenario": what}), trace });
+        }
+        total += rep.evaluations + 1;
+    }
+    ev["coverage"]["difat_boundary_fault_runs"] = serde_json::json!({"executions": total, "fault_positions": positions_total});
+    if let Some(e) = ev["coverage"]["evaluations"].as_u64() {
+        ev["coverage"]["evaluations"] = serde_json::json!(e + total);
+    }
+    None
 }
 
 fn worker(ctx: &Ctx) -> WorkerResult {
@@ -253,7 +381,7 @@ pub fn def() -> PropDef {
         worker,
         solo,
         hang_cpu_s: 300.0,
-        extra: None,
+        extra: Some(difat_boundary_faults),
         confirm_known: false,
     }
 }
